@@ -172,11 +172,17 @@ type recWriter struct {
 	writes     [][]byte
 	short      int // >0: Write accepts at most this many bytes per call
 	lateHeader []int
+	onHeader   func() // harness hook: called on every Header() call
 }
 
 func newRec(short int) *recWriter { return &recWriter{hdr: http.Header{}, short: short} }
 
-func (r *recWriter) Header() http.Header { return r.hdr }
+func (r *recWriter) Header() http.Header {
+	if r.onHeader != nil {
+		r.onHeader()
+	}
+	return r.hdr
+}
 func (r *recWriter) commit(code int) {
 	if r.status == 0 {
 		r.status = code
